@@ -106,10 +106,10 @@ Verdict(e) ==
         \* after parts were replaced the cached .shape / .rank attributes are stale by design: only the conversions are obliged
         needmeta  == ~opt /\ ~c.late
         neednorm  == ~opt /\ c.mix \in {"none", "f32_all"} /\ ~c.late
-        \* single precision: squaring the reported norm is exact to a few ulp(float32) ~ 5e-7 relative
-        F32Tol == IF c.mix = "f32_all" THEN 1 + (n2 \div 500) ELSE 0
         N  == Len(D.shape)
         n2 == Norm2(D)
+        \* single precision: squaring the reported norm is exact to a few ulp(float32) ~ 5e-7 relative
+        F32Tol == IF c.mix = "f32_all" THEN 1 + (n2 \div 500) ELSE 0
         \* logged tensor x against the exact tensor (real part Tre, imaginary part Tim)
         CV(x, Tre, Tim) == /\ IsLoggedT(x) /\ SameT(x, Tre)
                            /\ (cplx => /\ "im" \in DOMAIN x /\ Len(x.im) = Len(Tim.data)
@@ -130,7 +130,8 @@ Verdict(e) ==
             ELSE IF ~r.exact THEN "Exact"
             ELSE IF ~IsLoggedT(r.dense) \/ r.dense.shape # D.shape THEN "DenseShape"
             ELSE IF ~CV(r.dense, D, DI) THEN "Dense"
-            ELSE IF c.mix # "none" /\ r.dtype # c.outdtype THEN "Dtype"          \* the promoted type of the stored parts
+            \* the promoted type of the parts that enter the contraction (a left-out complex factor does not)
+            ELSE IF c.mix # "none" /\ r.dtype # (IF cplx /\ izero THEN "float64" ELSE c.outdtype) THEN "Dtype"
             ELSE IF needviews /\ ~UnfOK(r) THEN "Unfolded"
             ELSE IF needviews /\ ~CV(r.vec, Vec(D), Vec(DI)) THEN "Vec"
             ELSE IF kd = "cp" /\ ~CV(r.masked, Hadamard(D, in.mask), Hadamard(DI, in.mask)) THEN "Masked"
